@@ -29,4 +29,25 @@ PROP_ASSUMPTIONS = {
         "character-class tables regenerated from lookup.rs / mod.rs by the translator",
         "reference lexer harness/src/lexspec.rs is our reading of the October-2021 lexical grammar (surrogate and braced escapes rejected as documented)",
     ],
+    "C01": [
+        "parser model hand-written from parser/mod.rs + parser/grammar/*.rs + rowan builder; tied by correspondence stream P",
+        "validate_name and the recursion-balance assert of document() are modelled as ghost flags (deadBranch), printed by the driver if ever set",
+        "lexer errors/indices as in C03; limit-error index reproduces Cursor::index() incl. its len-1 quirk at end of input",
+        "native stack size and the five compiler parse entry points are explored, not modelled",
+    ],
+    "C02": [
+        "parser model hand-written from parser/mod.rs + parser/grammar/*.rs + rowan builder; tied by correspondence stream P",
+        "validate_name and the recursion-balance assert of document() are modelled as ghost flags (deadBranch), printed by the driver if ever set",
+        "lexer errors/indices as in C03; limit-error index reproduces Cursor::index() incl. its len-1 quirk at end of input",
+    ],
+    "C04": [
+        "parser model hand-written from parser/mod.rs + parser/grammar/*.rs + rowan builder; tied by correspondence stream P",
+        "validate_name and the recursion-balance assert of document() are modelled as ghost flags (deadBranch), printed by the driver if ever set",
+        "lexer errors/indices as in C03; limit-error index reproduces Cursor::index() incl. its len-1 quirk at end of input",
+    ],
+    "C07": [
+        "parser model hand-written from parser/mod.rs + parser/grammar/*.rs + rowan builder; tied by correspondence stream P",
+        "validate_name and the recursion-balance assert of document() are modelled as ghost flags (deadBranch), printed by the driver if ever set",
+        "lexer errors/indices as in C03; limit-error index reproduces Cursor::index() incl. its len-1 quirk at end of input",
+    ],
 }
